@@ -3,5 +3,5 @@
 cd /verif
 tier=${1:-quick}
 for p in $(python3 -c "import json;print(' '.join(x['property_id'] for x in json.load(open('MANIFEST.json'))['checks']))" 2>/dev/null); do
-  timeout 3000 ./check $p --tier $tier 2>&1 | grep -v "^KNOWN\|Warning\|warn\|WARNING" | grep "tier=\|undecided\|error\|VIOLATION" | head -6
+  timeout 3000 ./check $p --tier $tier 2>&1 | grep -v "^KNOWN\|Warning\|warn\|WARNING" | grep "tier=\|undecided\|error\|VIOLATION" | head -8
 done
